@@ -288,6 +288,8 @@ func StdData(r *rand.Rand) val.V {
 		{K: "st", V: val.Struct(val.KV{K: "A", V: val.Int("int", 3)}, val.KV{K: "S", V: str()}, val.KV{K: "priv", V: val.Int("int", 1)}, val.KV{K: "M", V: val.Map(val.KV{K: "k", V: num()})})},
 		{K: "pst", V: val.PStruct(val.KV{K: "A", V: val.Int("int", 4)}, val.KV{K: "S", V: str()})},
 		{K: "nilp", V: val.V{K: "nilptr"}}, {K: "nd", V: val.V{K: "nildec"}}, {K: "__u", V: num()}, {K: "_u", V: str()}, {K: "ym", V: val.V{K: "yamlmap", S: "yaml"}},
+		// decimals whose coefficient does not fit a machine word (their digits live in shared storage when the struct is copied)
+		{K: "dw", V: val.Dec([]string{"12345678901234567890123.75", "3.00000000000000000000001", "99999999999999999999.5", "-18446744073709551616.25"}[r.Intn(4)])},
 		{K: "se", V: val.V{K: []string{"selfembed", "selfembed1"}[r.Intn(2)], S: "node"}}, {K: "mu", V: val.V{K: "mutual", S: "left"}},
 		{K: "ra", V: val.V{K: "rowA", M: []val.KV{{K: "Qty", V: val.Int("int", 7)}, {K: "Price", V: val.Int("int", 3)}, {K: "Note", V: val.Str("n")}}}},
 		{K: "rb", V: val.V{K: "rowB", M: []val.KV{{K: "Qty", V: val.Int("int", 2)}, {K: "Price", V: val.Int("int", 50)}}}},
@@ -304,7 +306,7 @@ func StdData(r *rand.Rand) val.V {
 	return val.Map(kv...)
 }
 
-var stdNames = []string{"n0", "n1", "s0", "s1", "b0", "z", "m", "tm", "arr", "strs", "ms", "st", "pst", "nilp", "nd", "ra", "rb", "t0", "d0", "u0", "x0", "x1", "x2", "odd", "odd2", "undefinedname", "$v", "$w", "se", "mu", "__u", "_u", "ym"}
+var stdNames = []string{"n0", "n1", "s0", "s1", "b0", "z", "m", "tm", "arr", "strs", "ms", "st", "pst", "nilp", "nd", "ra", "rb", "t0", "d0", "u0", "x0", "x1", "x2", "odd", "odd2", "undefinedname", "$v", "$w", "se", "mu", "__u", "_u", "ym", "dw"}
 var stdFuncs = []string{"fid", "ferr", "fsum", "fcat", "fnums", "fstrs", "fctx", "fnoret", "fone", "fpanic", "fanys", "ftime", "fmap", "fnildec", "fnilptr", "fcurry", "undefinedfn", "n0", "s0", "m", "z"}
 var stdMembers = []string{"k", "name", "b", "f", "A", "S", "M", "priv", "Z", "missing", "Qty", "Price", "Note", "Name", "L", "R", "SelfNode", "MutRight", "true", "null", "name"}
 
